@@ -103,6 +103,12 @@ def load_from_directory(layer: "SemanticLayer", directory: str | Path) -> None:
                 adapter = MetricFlowAdapter()
             elif "semantic_model:" in content and "datasets:" in content:
                 adapter = OSIAdapter()
+            elif ": _." in content and ("dimensions:" in content or "measures:" in content):
+                # BSL writes every expression as `name: _.column...`. Checked before the Cube and
+                # native rules because BSL model names such as page_views / aircraft_models contain
+                # their markers ("views:", "models:"), and on the value position only, so that a
+                # "_." inside some other format's SQL text (e.g. a regex class) does not match
+                adapter = BSLAdapter()
             elif "cubes:" in content or "views:" in content and "measures:" in content:
                 adapter = CubeAdapter()
             # Check for Sidemantic native format (explicit models: key)
@@ -112,6 +118,10 @@ def load_from_directory(layer: "SemanticLayer", directory: str | Path) -> None:
                 # Superset datasets also contain "metrics:" and "type: ", so they must be
                 # recognised before the generic MetricFlow metrics-file check below
                 adapter = SupersetAdapter()
+            elif "tables:" in content and "base_table:" in content:
+                # Snowflake Cortex Semantic Model format; its tables may carry "metrics:" sections and
+                # "data_type: " entries, so it must be recognised before the generic MetricFlow check
+                adapter = SnowflakeAdapter()
             elif "metrics:" in content and "type: " in content:
                 adapter = MetricFlowAdapter()
             elif ("base_sql_table:" in content or "base_sql_query:" in content) and "measures:" in content:
@@ -120,12 +130,6 @@ def load_from_directory(layer: "SemanticLayer", directory: str | Path) -> None:
                 adapter = ThoughtSpotAdapter()
             elif "worksheet:" in content and "worksheet_columns:" in content:
                 adapter = ThoughtSpotAdapter()
-            elif "tables:" in content and "base_table:" in content:
-                # Snowflake Cortex Semantic Model format
-                adapter = SnowflakeAdapter()
-            elif "_." in content and ("dimensions:" in content or "measures:" in content):
-                # BSL format uses _.column syntax for expressions
-                adapter = BSLAdapter()
             elif "type: metrics_view" in content:
                 adapter = RillAdapter()
             elif (
